@@ -1400,6 +1400,10 @@ func (repo *Repository) migrate(ctx context.Context) error {
 		return repo.initializeWithGenesis()
 	}
 
+	// Record the hash heights so the migrated headers can still be looked up by hash after they are
+	// pruned from memory.
+	repo.loadBranchHashHeights(ctx, branch)
+
 	logger.InfoWithFields(ctx, []logger.Field{
 		logger.Stringer("latest_block_hash", branch.Last().Hash),
 		logger.Int("latest_block_height", branch.Height()),
